@@ -55,6 +55,145 @@ Section EdSign.
     end.
 End EdSign.
 
+(* ---------------------------------------------------------------------------------------- *)
+(* Repositories WITH delegated roles.
+
+   What the editor holds when [sign] is called: the top-level targets content in its targets editor
+   ([edit], with the key table [dkeys] of the top-level delegations) and, in [signed_targets], a tree
+   of delegated roles. Every delegated role carries the header its delegating role lists for it, its
+   own content (version, expiration, entries; TargetsEditor::new always gives a role a "delegations"
+   member, so has_deleg is true), the key table of its own delegations, its children, and the key
+   ids its holder signed it with (SignedRole::new: one signature per offered key the header lists -
+   [sign_with]; delegate_role signs a new role with all the keys given for it). *)
+Inductive enode :=
+| ENode (hdr : dhdr) (version : N) (expires : Z) (entries : list (tname * tinfo))
+        (dkeys : list N) (children : list enode) (signers : list N).
+
+Definition en_hdr (n : enode) := let 'ENode h _ _ _ _ _ _ := n in h.
+Definition en_name (n : enode) : bytes := dh_name (en_hdr n).
+Definition en_version (n : enode) := let 'ENode _ v _ _ _ _ _ := n in v.
+Definition en_expires (n : enode) := let 'ENode _ _ e _ _ _ _ := n in e.
+Definition en_entries (n : enode) := let 'ENode _ _ _ en _ _ _ := n in en.
+Definition en_dkeys (n : enode) := let 'ENode _ _ _ _ k _ _ := n in k.
+Definition en_children (n : enode) := let 'ENode _ _ _ _ _ c _ := n in c.
+Definition en_signers (n : enode) := let 'ENode _ _ _ _ _ _ s := n in s.
+
+(* the signatures on a delegated role's document *)
+Definition en_sigs (n : enode) : list sig := sign_with (dh_keyids (en_hdr n)) (en_signers n).
+
+(* what a role's document says about its delegated roles in its written FILE: their headers; the
+   documents themselves are serde(skip) *)
+Definition hdrs_of (ch : list enode) : list (dhdr * option targets) := map (fun c => (en_hdr c, None)) ch.
+
+(* the document of a delegated role as serialised into its file *)
+Definition en_file_doc (n : enode) : targets :=
+  Targets (en_version n) (en_expires n) (en_entries n) true (en_dkeys n) (hdrs_of (en_children n)) (en_sigs n).
+
+(* the same document with the whole subtree attached (Signed<Targets> in memory; what a client
+   holds after load_delegations) *)
+Fixpoint en_loaded (n : enode) : targets :=
+  let 'ENode h v e en dk ch sg := n in
+  Targets v e en true dk (map (fun c => (en_hdr c, Some (en_loaded c))) ch) (sign_with (dh_keyids h) sg).
+Definition loaded_roles (ch : list enode) : list (dhdr * option targets) :=
+  map (fun c => (en_hdr c, Some (en_loaded c))) ch.
+
+(* Targets::signed_delegated_targets: all delegated roles, each followed by its own delegated roles *)
+Fixpoint en_flat (n : enode) : list enode := n :: flat_map en_flat (en_children n).
+Definition all_roles (ch : list enode) : list enode := flat_map en_flat ch.
+
+(* levels of load_delegations needed below a role (every role has a delegations member) *)
+Fixpoint en_depth (n : enode) : nat := S (list_max (map en_depth (en_children n))).
+Definition tree_depth (ch : list enode) : nat := S (list_max (map en_depth ch)).
+
+(* Targets::parent_of: the first delegations object, in pre-order, that lists a role of that name *)
+Fixpoint parent_in (name : bytes) (n : enode) : option (list N * list enode) :=
+  let 'ENode _ _ _ _ dk ch _ := n in
+  (fix go (l : list enode) : option (list N * list enode) :=
+     match l with
+     | [] => None
+     | c :: rest =>
+         if bytes_eqb (en_name c) name then Some (dk, ch)
+         else match parent_in name c with
+              | Some x => Some x
+              | None => go rest
+              end
+     end) ch.
+
+(* writing files into a directory / inserting into a HashMap, in order: a later entry of the same
+   name replaces the earlier one *)
+Fixpoint write_all {V} (l : list (bytes * V)) (m : list (bytes * V)) : list (bytes * V) :=
+  match l with
+  | [] => m
+  | (k, v) :: r => write_all r (assoc_insert k v m)
+  end.
+
+Definition top_role_names : list bytes :=
+  [name_root_role; name_snapshot_role; name_targets_role; name_timestamp_role].
+
+Section EdTree.
+  Variable len_of : content -> N.
+  Variable dig_of : content -> N.
+
+  Definition meta_of (version : N) (c : content) : meta :=
+    {| m_version := version; m_length := Some (len_of c); m_hash := Some (dig_of c) |}.
+
+  (* the top-level targets document as serialised into targets.json *)
+  Definition top_file_doc (e : edit) (dkeys : list N) (ch : list enode) (sigs : list sig) : targets :=
+    Targets (e_tv e) (e_texp e) (e_entries e) true dkeys (hdrs_of ch) sigs.
+  (* ... and in memory, with the tree of delegated roles attached *)
+  Definition top_loaded (e : edit) (dkeys : list N) (ch : list enode) (sigs : list sig) : targets :=
+    Targets (e_tv e) (e_texp e) (e_entries e) true dkeys (loaded_roles ch) sigs.
+
+  (* the top-level role seen as a node, for parent_of *)
+  Definition top_node (e : edit) (dkeys : list N) (ch : list enode) : enode :=
+    ENode {| dh_name := name_targets_role; dh_keyids := []; dh_threshold := 0; dh_paths := Paths [] |}
+          (e_tv e) (e_texp e) (e_entries e) dkeys ch [].
+
+  (* the loop of RepositoryEditor::sign over signed_delegated_targets: no delegated role bears the name
+     of a top-level role (F18), and each verifies under the delegations parent_of finds for its name (F12) *)
+  Definition role_checked (top : enode) (n : enode) : bool :=
+    negb (mem_bytes (en_name n) top_role_names)
+    && match parent_in (en_name n) top with
+       | None => false
+       | Some (dk, sibs) => deleg_verify fixed dk (hdrs_of sibs) (en_name n) (en_sigs n)
+       end.
+
+  (* build_snapshot: targets.json, then one entry per delegated role under <name>.json (a HashMap) *)
+  Definition tree_snapshot (e : edit) (top_doc : targets) (ch : list enode) (sigs : list sig) : snapshot :=
+    {| sn_version := e_sv e; sn_expires := e_sexp e;
+       sn_meta := write_all (map (fun n => (json_of (en_name n), meta_of (en_version n) (CTargets (en_file_doc n))))
+                                 (all_roles ch))
+                            [(name_targets, meta_of (e_tv e) (CTargets top_doc))];
+       sn_sigs := sigs |}.
+
+  (* SignedRepository::write: targets, snapshot, timestamp, then every delegated role under
+     DelegatedTargets::filename, in the order of signed_delegated_targets *)
+  Definition tree_files (cs : bool) (e : edit) (top_doc : targets) (sn : snapshot) (ts : timestamp)
+             (ch : list enode) : server :=
+    write_all (map (fun n => (role_filename cs (en_version n) (en_name n),
+                              Served (mkfile len_of dig_of (CTargets (en_file_doc n)))))
+                   (all_roles ch))
+              [(versioned cs (e_tv e) name_targets, Served (mkfile len_of dig_of (CTargets top_doc)));
+               (versioned cs (e_sv e) name_snapshot, Served (mkfile len_of dig_of (CSnap sn)));
+               (name_timestamp, Served (mkfile len_of dig_of (CTs ts)))].
+
+  (* RepositoryEditor::sign followed by SignedRepository::write. The targets document returned is the
+     in-memory one (tree attached); the snapshot describes the files. *)
+  Definition ed_sign_tree (r : root) (e : edit) (dkeys : list N) (ch : list enode) (keys : list N)
+    : option (targets * snapshot * timestamp * server) :=
+    match signed_role r 2 keys, signed_role r 1 keys, signed_role r 3 keys with
+    | Some st, Some ss, Some sts =>
+        if forallb (role_checked (top_node e dkeys ch)) (all_roles ch) then
+          let doc := top_file_doc e dkeys ch st in
+          let tg := top_loaded e dkeys ch st in
+          let sn := tree_snapshot e doc ch ss in
+          let ts := ed_timestamp len_of dig_of e sn sts in
+          if validate tg then Some (tg, sn, ts, tree_files (r_cs r) e doc sn ts ch) else None
+        else None
+    | _, _, _ => None
+    end.
+End EdTree.
+
 (* RepositoryEditor::update_delegated_targets: incoming metadata for an existing delegated role is
    taken only if it verifies under the delegating role's keys and threshold and does not lower the
    role's version *)
